@@ -23,6 +23,7 @@ import Driver.C13
 open Kv
 
 structure DState where
+  c02 : Drv.C02.FullSt := {}
   c04 : Drv.Flow.FullSt := {}
   c07 : Drv.Flow.FullSt := {}
   c08 : Drv.C08.FullSt := {}
@@ -35,7 +36,7 @@ structure DState where
 def dispatch (st : DState) (prop : String) (l : Line) : DState × String :=
   match prop with
   | "C01" => (st, Drv.C01.step l)
-  | "C02" => (st, Drv.C02.step l)
+  | "C02" => let (s, r) := Drv.C02.stepSt st.c02 l; ({ st with c02 := s }, r)
   | "C12" => (st, Drv.C12.stepFull l)
   | "C20" => (st, Drv.C20.step l)
   | "C11" => (st, Drv.C11.step l)
